@@ -517,6 +517,14 @@ fn test32(c: &Blk32, stats: &Stats) -> CaseResult {
             ord_chk!("Offset32", Offset32::new, p, q);
             ord_chk!("Tag", Tag::from_u32, p, q);
             ord_chk!("GlyphId", GlyphId::new, p, q);
+            // mixed-width glyph ids compare by value in both directions (a 16-bit id widened, never a 32-bit id truncated)
+            for q16 in [q as u16, (q >> 16) as u16, p as u16] {
+                let (g, h) = (GlyphId::new(p), GlyphId16::new(q16));
+                let want = p.cmp(&(q16 as u32));
+                chk!(g.partial_cmp(&h) == Some(want) && h.partial_cmp(&g) == Some(want.reverse()) && (g == h) == (want == Ordering::Equal) && (h == g) == (want == Ordering::Equal)
+                    && (g < h) == (want == Ordering::Less) && (h < g) == (want == Ordering::Greater),
+                    "ordering", "GlyphId({p:#x}) against GlyphId16({q16:#x}): partial_cmp {:?} / reverse {:?}, values order {:?}", g.partial_cmp(&h), h.partial_cmp(&g), want);
+            }
         }
         // 64-bit patterns built from the 32-bit one
         let raw8 = [raw[0], raw[1], raw[2], raw[3], raw[3] ^ raw[0], raw[2].wrapping_mul(31), !raw[1], raw[0].wrapping_add(raw[3])];
